@@ -155,6 +155,16 @@ def fix_zero_residual(mat, obs):
     return mat
 
 
+# 'all values': data in very small or large units (MEG in tesla ~1e-12, ...) - an exact
+# power-of-two rescaling, so the reference and every tolerance scale along
+unit_exp = st.sampled_from([0, 0, 0, -40, -25, 30])
+
+
+def rescale(mat, e):
+    f = 2.0 ** e
+    return [[v * f for v in row] for row in mat]
+
+
 # ---- sub-check 1: single residual matrix -----------------------------------
 
 @st.composite
@@ -164,7 +174,7 @@ def residual_case(draw):
     res = fix_constant_columns(draw(gen.matrix(n, p)))
     method = draw(st.sampled_from(METHODS))
     dof = draw(st.one_of(st.none(), st.integers(1, 40)))
-    return dict(res=res, method=method, dof=dof)
+    return dict(res=rescale(res, draw(unit_exp)), method=method, dof=dof)
 
 
 def check_residual(case):
@@ -209,7 +219,8 @@ def residual_list_case(draw):
     else:
         ns = draw(st.lists(st.integers(2, 10), min_size=k, max_size=k))
     kind = draw(gen.value_kind())
-    mats = [fix_constant_columns(draw(gen.matrix(n, p, kind=kind))) for n in ns]
+    e = draw(unit_exp)
+    mats = [rescale(fix_constant_columns(draw(gen.matrix(n, p, kind=kind))), e) for n in ns]
     method = draw(st.sampled_from(METHODS))
     dof_kind = draw(st.sampled_from(['none', 'scalar', 'list', 'list']))
     if dof_kind == 'none':
@@ -277,7 +288,7 @@ def dataset_case(draw):
         des['reps'][0] += 1
         des['balanced'] = len(set(des['reps'])) == 1
     p = draw(st.integers(1, 6))
-    meas = fix_zero_residual(draw(gen.matrix(len(des['obs']), p)), des['obs'])
+    meas = rescale(fix_zero_residual(draw(gen.matrix(len(des['obs']), p)), des['obs']), draw(unit_exp))
     method = draw(st.sampled_from(METHODS))
     dof = draw(st.one_of(st.none(), st.none(), st.integers(1, 30)))
     cont = draw(gen.container)
@@ -349,6 +360,9 @@ def dataset_list_case(draw):
         des = draw(gen.design(n_cond_range=(2, 4), reps_range=(2, 3), balanced=balanced))
         meas = fix_zero_residual(draw(gen.matrix(len(des['obs']), p, kind='grid')), des['obs'])
         sets.append(dict(design=des, meas=meas))
+    e = draw(unit_exp)
+    for s_ in sets:
+        s_['meas'] = rescale(s_['meas'], e)
     dof_kind = draw(st.sampled_from(['none', 'scalar', 'list']))
     dof = None if dof_kind == 'none' else (
         draw(st.integers(1, 20)) if dof_kind == 'scalar'
@@ -375,6 +389,16 @@ def check_dataset_list(case):
             'list-length')
     for i, (s, sc) in enumerate(refs):
         check_estimate(est[i], s, method, 'dataset %d of list (dof=%r)' % (i, dof), sc)
+    # each returned precision is the inverse of the corresponding covariance (also for lists)
+    if all(np.linalg.cond(np.asarray(e)) < 1e6 for e in est):
+        fp = N.prec_from_unbalanced if case['fn'] == 'unbalanced' else N.prec_from_measurements
+        prec = lib(fp, dss, 'cond', dof=dof, method=method, on_error='violation',
+                   sig='raises:%s:list' % fp.__name__)
+        require(isinstance(prec, list) and len(prec) == len(dss), 'list of datasets: %d precisions'
+                % len(prec), 'list-length')
+        for i in range(len(dss)):
+            check_prec(prec[i], est[i], '%s, dataset %d of list (dof=%r)' % (fp.__name__, i, dof),
+                       method)
 
 
 def classify_dataset_list(case):
